@@ -136,6 +136,18 @@ func (m *usernameToUserdataMap) RemoveSession(username string) bool {
 	return false
 }
 
+// RemoveAllSessions removes the userdata entry and the session counter of
+// username, whatever the number of logins. Used when the user is deactivated
+// or its password, permissions or privileges change: every login of that
+// user must end, not only one of them.
+func (m *usernameToUserdataMap) RemoveAllSessions(username string) {
+	shard := m.shardFor(username)
+	shard.mu.Lock()
+	delete(shard.sessionCounts, username)
+	delete(shard.Userdata, username)
+	shard.mu.Unlock()
+}
+
 // defaultDbIndex systemdb should always be in index 0
 const (
 	defaultDbIndex = 0
